@@ -317,8 +317,15 @@ static long *e_co;
    (obligation *_strictptr shows it).  Assumption A-GUARD: every vector is preceded by one guard
    element.  The guard holds an arbitrary value and no assigns clause covers it, so a result that
    depends on it or a write to it still fails the contract. */
-#ifdef C03_STRICT_PTR
+#if defined(C03_STRICT_PTR)
 #define C03_VEC(T, p, n) H4V_ND_BUF(T, p, n, 33)
+#elif defined(C03_FIXVEC) && defined(H4V_CBMC) && !defined(H4V_CEX)
+/* full-rank runs: vectors of constant size MAXR (+ guard) with arbitrary contents -- heap vectors
+   of symbolic size exhaust the solver at rank 32.  Accesses between rank and MAXR are then not
+   bounds violations; the *_mem obligations (exact-size heap vectors, small rank) cover those. */
+#define C03_VEC(T, p, n)                                                                             \
+    static T p##_g[MAXR + 1];                                                                        \
+    T *p = p##_g + 1
 #else
 #define C03_VEC(T, p, n)                                                                             \
     H4V_ND_BUF(T, p##_g, (n) + 1, 33);                                                               \
